@@ -992,9 +992,11 @@ Example all_missing_comes_back_empty :
   = Ok [("a"%string, ISer OZArith "" (empty_series OZArith 1)); ("b"%string, ISer OZArith "about b" (ser [[Some 2]]))].
 Proof. vm_compute. reflexivity. Qed.
 
-(* a sheet holding nothing but empty series has no data row: the import raises *)
-Example only_empty_series_raises :
-  roundtrip false [("e"%string, ISer OZArith "" (empty_series OZArith 1))] = Err 5.
+(* a sheet holding nothing but empty series has no data row: the series come back empty, with their names, variant
+   counts and descriptions (the unrepaired import raised IndexError here: fixes/C19_2) *)
+Example only_empty_series_roundtrip :
+  roundtrip true [("e"%string, ISer OZArith "about e" (empty_series OZArith 1)); ("e2"%string, ISer OZArith "" (empty_series OZArith 3))]
+  = Ok [("e"%string, ISer OZArith "about e" (empty_series OZArith 1)); ("e2"%string, ISer OZArith "" (empty_series OZArith 3))].
 Proof. vm_compute. reflexivity. Qed.
 End CsvExamples.
 
